@@ -150,6 +150,11 @@ def spectrum(rng, k, kind):
         return s
     if kind == 'random':
         return np.sort(rng.uniform(0, 1, size=k))[::-1]
+    if kind == 'near-degenerate':
+        # groups of values agreeing to 6..12 digits without being equal
+        s = rng.uniform(0.1, 1, size=(k + 2) // 3)
+        s = np.concatenate([s * (1 + float(e)) for e in rng.choice([1e-12, -1e-9, 1e-7, 3e-6, -8e-6], size=3)])
+        return np.sort(s)[::-1][:k]
     raise ValueError(kind)
 
 
@@ -196,7 +201,7 @@ SCALES = [1, 1, 1, 0.01, 1e-20, 1e20, 1e-170, 1e170, 1e-280, 1e280]      # beyon
 def random_svd(ctx, idx, rng):
     m, n = (int(rng.integers(1, 25)), int(rng.integers(1, 25))) if idx % 20 else (int(rng.integers(25, 120)), int(rng.integers(25, 120)))
     lay, q0, q1 = _layout(rng, m, n)
-    kind = str(rng.choice(['decaying', 'flat', 'staircase', 'degenerate', 'deficient', 'random', 'zerocols', 'binary', 'dupcols', 'nearstruct', 'nearstruct']))
+    kind = str(rng.choice(['decaying', 'flat', 'staircase', 'degenerate', 'near-degenerate', 'deficient', 'random', 'zerocols', 'binary', 'dupcols', 'nearstruct', 'nearstruct']))
     cplx = bool(rng.random() < 0.5)
     if kind in ('zerocols', 'binary', 'dupcols', 'nearstruct'):
         A = gen.structured_block_matrix(rng, q0, q1, kind) * float(rng.choice(SCALES))
@@ -241,7 +246,7 @@ def random_svd(ctx, idx, rng):
 
 def random_retained(ctx, idx, rng):
     k = int(rng.integers(1, 30))
-    kind = str(rng.choice(['decaying', 'flat', 'staircase', 'degenerate', 'deficient', 'random', 'zero']))
+    kind = str(rng.choice(['decaying', 'flat', 'staircase', 'degenerate', 'near-degenerate', 'deficient', 'random', 'zero']))
     s = np.zeros(k) if kind == 'zero' else spectrum(rng, k, kind)[rng.permutation(k)] * float(rng.choice([1, 1, 1e-100, 1e100, 1e-170, 1e170, 1e-290, 1e290]))
     tol = float(rng.choice(TOLS))
     s0 = s.copy()
@@ -261,7 +266,7 @@ def split_tensor(ctx, idx, rng):
     # tensor as a block matrix (rows: (s0, a), cols: (s1, b)) with prescribed spectrum, then to (d0*d1, D0, D2)
     qrow = np.add.outer(qd0, qD0).reshape(-1)
     qcol = np.add.outer(-qd1, qD2).reshape(-1)
-    kind = str(rng.choice(['decaying', 'flat', 'degenerate', 'deficient', 'random']))
+    kind = str(rng.choice(['decaying', 'flat', 'degenerate', 'near-degenerate', 'deficient', 'random']))
     cplx = bool(rng.random() < 0.6)
     M = matrix_with_spectrum(rng, qrow, qcol, kind, cplx)
     A = M.reshape(d0, D0, d1, D2).transpose(0, 2, 1, 3).reshape(d0 * d1, D0, D2)
